@@ -483,8 +483,15 @@ class Trav:
                         top = pat
                         while top.get("k") in ("Ref", "Box", "Deref"):
                             top = top["pat"]
+                        whole_ids = set()
                         if top.get("k") == "Binding" and "sub" in top:
-                            ids = derive(arm_body, {top["id"]})
+                            whole_ids.add(top["id"])
+                        # ... or the scrutinee itself, when it is a plain local (`match expr { A(..) | B(..) => expr.visit() }`)
+                        scr = peel_refs(n["scrut"])
+                        if scr.get("k") == "Path" and scr.get("res", {}).get("r") == "local":
+                            whole_ids.add(scr["res"]["id"])
+                        if whole_ids:
+                            ids = derive(arm_body, whole_ids)
                             if "*" in self.visit_uses(arm_body, ids, cb_ids):
                                 f_, l_ = self.crate.loc(fn, pat)
                                 for f in self.ti.payload_fields(st, v, P) or []:
